@@ -71,7 +71,9 @@ class Ctx:
         self.tier = tier
         self.seed = seed
         self.t0 = time.time()
-        self.build = os.path.join(VERIF, 'build', self.id)
+        # drills against a scratch repo (VERIF_REPO) build in their own directory so that they cannot collide with a
+        # check of /repo running at the same time
+        self.build = os.path.join(VERIF, 'build', self.id + ('' if os.path.realpath(REPO) == '/repo' else '_scratch'))
         self.obligations = []      # (name, status, detail)
         self.assumptions = {}      # theorem -> [axioms]
         self.violations = []
